@@ -569,7 +569,7 @@ def oracle_history(ctx: Ctx, sc: dict, tr: dict, full: bool = False) -> dict:
     # ---- (D) withdrawal on graceful exit ------------------------------------------------------------------------------
     for i in incs:
         if i["t_stopped"] is None:
-            if i["t_stop_req"] is not None and H.t_end - i["t_stop_req"] > 30:
+            if i["t_stop_req"] is not None and H.t_end - i["t_stop_req"] > 30 and i["inc"] not in H.t_fail:
                 fail(f"operator {i['name']} did not finish a graceful stop within 30 s", "graceful stop does not finish", inc=i["inc"])
             continue
         others = [j for j in incs if j is not i and j["identity"] == i["identity"] and H.running(j, i["t_stopped"])]
